@@ -225,9 +225,16 @@ def gen_huge_lineage(rng):
     r = rng
     s = sg.Schema("pkt")
     elem = r.choice([sg.Bool(), sg.Uint(1), sg.Uint(2), sg.Int(3), sg.Byte()])
+    overflow = r.chance(0.3)
+    if overflow:
+        # products of announced capacity and consumed bits around and beyond 2**31
+        elem = r.choice([sg.Bool(), sg.Uint(1)])
     eb = sg.nbits(elem)
-    cap1 = r.choice([255, 256, 4095, 4096, 8191, 16383, 16384, 20000, 32767, 32768]) // (1 if eb <= 2 else eb)
+    # (capacities beyond 32768 with 1-bit elements make sender_capacity * consumed_bits exceed 2**31)
+    cap1 = r.choice([255, 256, 4095, 4096, 8191, 16383, 16384, 20000, 32767, 32768, 33000, 36000, 40000, 44000, 48000, 52000, 56000, 60000]) // eb
     cap1 = max(1, cap1)
+    if overflow:
+        cap1 = r.choice([32768, 32777, 33000, 36000, 40000, 46341, 48000, 52000, 56000, 60000])
     inner = sg.Message("Msga", True)
     inner.fields = [sg.Field(1, "x_a", sg.Uint(r.choice([1, 3, 7]))), sg.Field(2, "x_b", sg.Array(elem, cap1, True)), sg.Field(3, "x_c", sg.Int(r.choice([5, 13, 33])))]
     root = sg.Message("Packet", r.chance(0.5))
@@ -245,7 +252,9 @@ def gen_huge_lineage(rng):
         if room < 1:
             break
         old = arr.cap
-        grow = r.choice([1, room // 2, room - 1, room]) if room > 2 else 1
+        grow = r.choice([1, room // 2, room - 1, room, room]) if room > 2 else 1
+        if overflow and room > 2:
+            grow = r.choice([room, room - 1, room // 2])
         arr.cap = min(65535, old + max(1, grow))
         d = [{"step": "grow", "from": old, "to": arr.cap, "depth": 2}]
         if r.chance(0.5) and sg.nbits(nxt.find("Packet")) < 65000:
@@ -372,7 +381,7 @@ def gen_lineage(seed: int, scale: int = 1):
         versions, steps = gen_boundary_lineage(rng.sub("boundary"))
         if versions and len(versions) >= 2:
             return versions, steps
-    if Rng(seed, "huge").chance(0.06):
+    if Rng(seed, "huge").chance(0.08):
         versions, steps = gen_huge_lineage(rng.sub("huge"))
         if len(versions) >= 2:
             return versions, steps
